@@ -246,7 +246,7 @@ def main():
             violations.append(d)
     lines = []
     for sig, d in known_hit.items():
-        lines.append(f"KNOWN-FINDING: property={prop} {known[sig]['what']} [{sig}] e.g. {d['case'][:160]}")
+        lines.append(f"KNOWN-FINDING: property={prop} {known[sig]['what']} [{sig}] e.g. {' '.join(d['case'][:160].split())}")
     # findings listed but not reproduced this run are said so (they stay demonstrated only when exhibited)
     for sig, f in known.items():
         if sig not in known_hit:
